@@ -28,6 +28,10 @@ CHECKS.update({
     "C17": (MC, "inheritance as implicit reference stages; TLC trace validation of families of histories that differ in when morphisms, dom/cod facts and member facts arrive; known finding KF-C17-1 classified by a counterfactual re-run", "one model declaration, member predicates over global types, acyclic functional morphism graphs", "3 C17"),
     "C19": ("translation_validation", "structural validation of module-mode vs component-mode output (env structs, link names, rule code) by TLC on Link.tla", "behavioural comparison of the two builds is not part of this revision", "3 C19"),
 })
+CHECKS.update({
+    "C12": (MC, "TLC model checking of Build.tla (every file-system mutation one action, crash before each, rustc failure, worker pool) + TLC-enumerated edit/build/crash histories executed on the real CLI (hook verif_fs_point, stand-in rustc), outcomes validated by BuildTrace against clean builds", "4 versions of one theory, 2 components; stand-in rustc", "3 C12"),
+    "C13": ("exploration", "Build.tla Deterministic (design) + repeated compilations under different thread counts, directory layouts, completion orders and processes; DetTrace (TLC) requires byte-identical outputs", "quantifies over process environments that cannot be enumerated: exploration", "3 C13"),
+})
 NOT_YET = {
 }
 NA = {
@@ -65,7 +69,7 @@ def main():
             "guard": "--cfg eqlog_verif",
             "enable": "harness/.cargo/config.toml passes --cfg eqlog_verif to every crate built in the harness workspace (path dependencies on /repo/eqlog and /repo/eqlog-runtime)",
             "baseline_off_cmd": "cd /repo && cargo test --workspace --no-fail-fast --offline",
-            "source_commits": ["8277b65"],
+            "source_commits": ["8277b65", "ce78374", "6913443", "3547595"],
             "add_only": True,
         },
         "engines": [{"name": "tlc", "path": "/verif/spec", "serves_properties": sorted(CHECKS), "kind_free_text": "TLA+ specifications model-checked with TLC; trace validation and behaviour replay through the Rust harness in /verif/harness"}],
